@@ -105,7 +105,8 @@ def cases(draw, tier):
     prof = docs.profile(max_schemas=3, max_props=3, max_ops=3, max_depth=1,
                         header_uuid="KF-C03-02" not in _live, cookie_nonstring="KF-C03-01" not in _live,
                         date_datetime_union=False, two_array_union=False, const=True,
-                        multi_body_multipart="KF-C03-04" not in _live, multi_body_array="KF-C03-05" not in _live)
+                        multi_body_multipart="KF-C03-04" not in _live, multi_body_array="KF-C03-05" not in _live,
+                        multipart_models=True)
     ir = draw(docs.doc_ir(prof))
     comps = docs.comp_map(ir)
     # an operation-level parameter shadowing a path-item-level one of a different kind
@@ -473,6 +474,20 @@ def check_request(ctx, req, op, call, comps, secured, auth, site_base):
                             text = part["payload"].decode("utf-8")
                         except UnicodeDecodeError:
                             V("request.body_multipart_value", {**bsite, "kind": pm[k]["k"], "why": "not_utf8"}, repr(part["payload"]))
+                            continue
+                        if isinstance(val[k], (dict, list)):
+                            # containers travel as a JSON-encoded part
+                            try:
+                                same_json = instances.json_eq(json.loads(text), val[k])
+                            except ValueError:
+                                same_json = False
+                            if not same_json:
+                                V("request.body_multipart_value", {"loc": "multipart", "kind": behave.effective_kind(pm[k], comps)},
+                                  f"sent {text!r} for argument {val[k]!r}")
+                            continue
+                        if pm[k]["k"] == "union" and isinstance(val[k], int) and not isinstance(val[k], bool):
+                            if text != str(val[k]):   # the integer alternative of a model-or-integer part travels as its decimal text
+                                V("request.body_multipart_value", {"loc": "multipart", "kind": "union"}, f"sent {text!r} for argument {val[k]!r}")
                             continue
                         _cmp_text(V, "request.body_multipart_value", text, val[k], {"schema": pm[k], "required": True}, comps, "multipart")
         elif kind == "octet":
